@@ -111,6 +111,8 @@ pub fn generate(repo: &Path) -> Res<String> {
     let mut new_conn_guard = false;
     let mut loop_chain: Option<Vec<Vec<(String, String)>>> = None; // list of if-chains: (cond, wake)
     let mut wait_incoming_ok = false;
+    let mut born_closed: Option<bool> = None;
+    let mut connect_rejects_closed: Option<bool> = None;
     for it in &file.items {
         let syn::Item::Impl(im) = it else { continue };
         let ty = ds(&im.self_ty);
@@ -160,6 +162,31 @@ pub fn generate(repo: &Path) -> Res<String> {
                 );
                 if !new_conn_guard {
                     return Err("EndpointState::handle_data: NewConnection arm not recognised".into());
+                }
+            } else if ty == "EndpointState" && name == "new_connection" {
+                // every connection is registered in `connections`; one created after `close` was requested gets the
+                // `ConnectionEvent::Close` that `Endpoint::close` sent to the others
+                let with = "{let(tx,rx)=unbounded();ifletSome((error_code,reason))=&self.close{tx.send(ConnectionEvent::Close(*error_code,reason.clone())).unwrap();}self.connections.insert(handle,tx);Connecting::new(handle,conn,socket,events_tx,rx)}";
+                let without = "{let(tx,rx)=unbounded();self.connections.insert(handle,tx);Connecting::new(handle,conn,socket,events_tx,rx)}";
+                born_closed = Some(if body == with {
+                    true
+                } else if body == without {
+                    false
+                } else {
+                    return Err(format!("EndpointState::new_connection: unrecognised body {body}"));
+                });
+            } else if ty == "EndpointInner" && (name == "connect" || name == "accept") {
+                if !body.contains("state.new_connection(handle,conn,self.socket.clone(),self.events.0.clone())") {
+                    return Err(format!("EndpointInner::{name}: does not create the connection through new_connection"));
+                }
+                if name == "connect" {
+                    connect_rejects_closed = Some(if body.contains("ifstate.worker.is_none(){returnErr(ConnectError::EndpointStopping);}") {
+                        false
+                    } else if body.contains("ifstate.worker.is_none()||state.close.is_some(){returnErr(ConnectError::EndpointStopping);}") {
+                        true
+                    } else {
+                        return Err("EndpointInner::connect: unrecognised EndpointStopping guard".into());
+                    });
                 }
             } else if ty == "Endpoint" && name == "wait_incoming" {
                 wait_incoming_ok = body.contains("future::poll_fn(|cx|self.inner.state.lock().poll_incoming(cx))");
@@ -225,6 +252,8 @@ pub fn generate(repo: &Path) -> Res<String> {
     let close_body = close_body.ok_or("Endpoint::close not found")?;
     let poll_incoming_table = poll_incoming_table.ok_or("EndpointState::poll_incoming not found")?;
     let loop_chain = loop_chain.ok_or("EndpointInner::run not found")?;
+    let born_closed = born_closed.ok_or("EndpointState::new_connection not found")?;
+    let connect_rejects_closed = connect_rejects_closed.ok_or("EndpointInner::connect not found")?;
     if !wait_incoming_ok {
         return Err("Endpoint::wait_incoming does not poll poll_incoming".into());
     }
@@ -264,6 +293,8 @@ pub fn generate(repo: &Path) -> Res<String> {
     s.push_str("/-- `poll_incoming` answers `Ready(None)` without registering once `close` is set (checked by the extractor) -/\ndef eRegChecksClosed : EReg → Bool\n  | .endpointStatePollIncoming => true\n\n");
     s.push_str("def eApiOf : List (String × EReg) := [(\"Endpoint::wait_incoming\", .endpointStatePollIncoming)]\n\n");
     writeln!(s, "/-- `handle_data` queues a `NewConnection` only while `close` is `None` -/\ndef newConnectionQueuedOnlyWhenOpen : Bool := {new_conn_guard}\n").unwrap();
+    writeln!(s, "/-- `new_connection` (used by BOTH `connect` and `accept`) sends `ConnectionEvent::Close` to a connection created\n    after `Endpoint::close` was requested: it is born closed -/\ndef newConnectionBornClosedWhenClosed : Bool := {born_closed}\n").unwrap();
+    writeln!(s, "/-- `connect` itself fails with `EndpointStopping` on a closed endpoint -/\ndef connectRejectsWhenClosed : Bool := {connect_rejects_closed}\n").unwrap();
     s.push_str("end Compio.Gen.QuicEndpoint\n");
     Ok(s)
 }
